@@ -850,6 +850,46 @@ def precedence_programs(per_file=10):
     return out
 
 
+def boolean_chain_programs(per_file=8):
+    """all bracketings of 3 logical operators over 4 boolean leaves x all choices of && / || (x an optional `!` on the
+    nested group), each a function of its leaves called on all 16 truth assignments: short-circuit jumps that cross nested
+    groups (`a && (b && c) && d`)"""
+    import itertools
+    V = lambda x: ('var', x)
+    shapes = [lambda o: (o[0], (o[1], (o[2], 'a', 'b'), 'c'), 'd'),          # ((a.b).c).d
+              lambda o: (o[0], (o[1], 'a', (o[2], 'b', 'c')), 'd'),          # (a.(b.c)).d
+              lambda o: (o[0], (o[1], 'a', 'b'), (o[2], 'c', 'd')),          # (a.b).(c.d)
+              lambda o: (o[0], 'a', (o[1], (o[2], 'b', 'c'), 'd')),          # a.((b.c).d)
+              lambda o: (o[0], 'a', (o[1], 'b', (o[2], 'c', 'd')))]          # a.(b.(c.d))
+
+    def build(t, neg_inner):
+        if isinstance(t, str):
+            return V(t)
+        k, x, y = t
+        bx, by = build(x, neg_inner), build(y, neg_inner)
+        if neg_inner and not isinstance(y, str):
+            by = ('not', by)
+        return (k, bx, by)
+    trees = []
+    for sh in shapes:
+        for ops in itertools.product(['and', 'or'], repeat=3):
+            trees.append(build(sh(ops), False))
+    for sh in shapes[1:]:
+        for ops in (('and', 'and', 'and'), ('or', 'or', 'or'), ('and', 'or', 'and')):
+            trees.append(build(sh(ops), True))
+    out = []
+    params = [(x, 'bool') for x in 'abcd']
+    for start in range(0, len(trees), per_file):
+        prog = []
+        for i, t in enumerate(trees[start:start + per_file]):
+            f = 'q%d' % i
+            prog.append(('asg', f, None, ('fn', params, 'bool', [('ret', t)])))
+            for vals in itertools.product([True, False], repeat=4):
+                prog.append(('print', ('call', V(f), [('bool', v) for v in vals])))
+        out.append(prog)
+    return out
+
+
 # ---------------------------------------------------------------- shrinking (delta debugging over statement lists)
 def shrink(prog, still_fails, budget=150):
     """greedy: try dropping each statement / replacing a compound statement by its body, anywhere in the tree"""
